@@ -422,9 +422,12 @@ def _loop_stop_set(ctx, loop: ast.While):
 
 
 def rule_r8(ctx) -> RuleResult:
-    rr = RuleResult("C01.R8", "rows, cells, captions and list items are pushed only under their required parent", min_instances=11)
+    # non-vacuity: every one of the five kinds has at least one push site that was analysed (the number of sites is not fixed:
+    # merging two arms that push the same kind is a refactoring)
+    rr = RuleResult("C01.R8", "rows, cells, captions and list items are pushed only under their required parent", min_instances=5)
     required = {"LIST_ITEM": "LIST", "TABLE_CAPTION": "TABLE", "TABLE_ROW": "TABLE", "TABLE_HEADER_CELL": "TABLE_ROW", "TABLE_CELL": "TABLE_ROW"}
     m = ctx.index.mod("parser")
+    seen_kinds: set = set()
     for q, fn in m.funcs.items():
         if "." in q or "_parser_push" not in unparse(fn) or q == "_parser_push":
             continue
@@ -448,6 +451,10 @@ def rule_r8(ctx) -> RuleResult:
                 rr.bad(Finding("C01.R8", P.PARSER, dotted, "_parser_push(ctx, NodeKind.{})".format(k),
                                "a {} can be pushed while {} is on top of the stack (required parent: {})".format(
                                    k, ", ".join(sorted(union - {need})) or "nothing", need), c.lineno))
+            seen_kinds.add(k)
+    missing = sorted(set(required) - seen_kinds)
+    if missing:
+        raise AnalysisError("no push site of {} was found in the parser -- the rule no longer sees its anchors".format(", ".join(missing)))
     return rr
 
 
@@ -519,8 +526,30 @@ def rule_r9(ctx) -> RuleResult:
                 raise AnalysisError("{}: cannot bound `{}` away from the bottom of the stack (inconclusive)".format(dotted, unparse(t)))
             # `while <top>.kind not in K:` / `!= K`: the condition itself is the stop test of an iteration
             _probe = P.TopKind(ctx, dotted)
-            kind_cond = _probe._kind_test(t, frozenset()) is not None or (
-                isinstance(t, ast.UnaryOp) and isinstance(t.op, ast.Not) and _probe._kind_test(t.operand, frozenset()) is not None)
+            # a name that is (re)bound to the top of the stack right before the loop and as the last statement of its body
+            # denotes the top whenever the condition is evaluated
+            loop_aliases = set()
+            par_ = m.parents.get(lp)
+            for fld_ in ("body", "orelse", "finalbody"):
+                blk_ = getattr(par_, fld_, None)
+                if isinstance(blk_, list) and any(x is lp for x in blk_):
+                    i_ = [j for j, x in enumerate(blk_) if x is lp][0]
+                    j_ = i_ - 1
+                    # early exits in between run nothing on the path that reaches the loop
+                    while j_ >= 0 and isinstance(blk_[j_], ast.If) and not blk_[j_].orelse and blk_[j_].body \
+                            and isinstance(blk_[j_].body[-1], (ast.Return, ast.Raise)):
+                        j_ -= 1
+                    prev_ = blk_[j_] if j_ >= 0 else None
+                    last_ = lp.body[-1] if lp.body else None
+                    for a_, b_ in ((prev_, last_),):
+                        if isinstance(a_, ast.Assign) and isinstance(b_, ast.Assign) and len(a_.targets) == 1 and len(b_.targets) == 1 \
+                                and isinstance(a_.targets[0], ast.Name) and unparse(a_.targets[0]) == unparse(b_.targets[0]) \
+                                and P.is_stack_top(a_.value) and P.is_stack_top(b_.value) \
+                                and not any(isinstance(x, ast.Continue) for x in ast.walk(lp)):
+                            loop_aliases.add(a_.targets[0].id)
+            al0 = frozenset(loop_aliases)
+            kind_cond = _probe._kind_test(t, al0) is not None or (
+                isinstance(t, ast.UnaryOp) and isinstance(t.op, ast.Not) and _probe._kind_test(t.operand, al0) is not None)
             if not (isinstance(t, ast.Constant) and t.value) and not presence_with_root and not kind_cond:
                 raise AnalysisError("{}: pop loop with an unrecognised condition `{}` (inconclusive)".format(dotted, unparse(t)))
             # for every kind on top: does one iteration pop, and does it certainly leave the loop?
@@ -529,9 +558,9 @@ def rule_r9(ctx) -> RuleResult:
             pops_kind, ends, may_end = set(), set(), set()
             for k in P.all_kinds(ctx):
                 w = P.TopKind(ctx, dotted, ranges)
-                entry_states = {(frozenset([k]), frozenset([]))}
+                entry_states = {(frozenset([k]), al0)}
                 if kind_cond:
-                    yes, no = w._branch(t, (frozenset([k]), frozenset([])))
+                    yes, no = w._branch(t, (frozenset([k]), al0))
                     if no:
                         may_end.add(k)
                     if not yes:
